@@ -48,9 +48,13 @@ func CombineFromNextProtos(prefix string, chunks []string) (string, error) {
 	}
 	var ret string
 	for _, chunk := range chunks {
-		// Strip that and the number
+		// Strip that and the number, which runs up to the first hyphen
 		if strings.HasPrefix(chunk, prefix) {
-			ret += strings.TrimPrefix(chunk, prefix)[3:]
+			_, body, found := strings.Cut(strings.TrimPrefix(chunk, prefix), "-")
+			if !found {
+				return "", fmt.Errorf("(%s) malformed chunk: missing chunk number", op)
+			}
+			ret += body
 		}
 	}
 	return ret, nil
